@@ -244,7 +244,7 @@ def _segy_worker(item):
 
 
 # ---------------------------------------------------------------------------------------------------------------
-DTYPES = ('int8', 'int16', 'int32', 'int64', 'uint8', 'uint16', 'uint32', 'intc')
+DTYPES = ('int8', 'int16', 'int32', 'int64', 'uint8', 'uint16', 'uint32', 'intc', '>i4', '>i2', '>i8', '<i4', '>u4')      # (arrays decoded from SEG-Y bytes are big-endian)
 
 
 def _numpy_worker(item):
